@@ -309,6 +309,16 @@ class VModule(SV):
         return f"Module({self.name})"
 
 
+class VGen(SV):
+    """an unevaluated comprehension over a symbolic list (consumed by sum/any/all/len)"""
+    __slots__ = ("node", "frame", "src")
+
+    def __init__(self, node, frame, src):
+        self.node = node
+        self.frame = frame
+        self.src = src
+
+
 class VExcClass(SV):
     __slots__ = ("name",)
 
@@ -348,7 +358,7 @@ class ObjRec:
 
 class ListRec:
     """concrete prefix-free list: python list of SVs; or symbolic: length term + element array/opaque"""
-    __slots__ = ("items", "length", "elem", "arr", "sym", "farr")
+    __slots__ = ("items", "length", "elem", "arr", "sym", "farr", "cnt")
 
     def __init__(self, items=None, length=None, elem=("any",), arr=None, sym=None):
         self.items = items          # list[SV] when concrete, else None
@@ -357,6 +367,7 @@ class ListRec:
         self.arr = arr              # z3 Array(Int -> sort) for primitive element types
         self.sym = sym
         self.farr = {}              # obj element type: field -> z3 Array(Int -> sort)
+        self.cnt = {}               # ghost counters: name -> z3 Int (number of elements satisfying a registered predicate)
 
     @property
     def concrete(self):
@@ -365,6 +376,7 @@ class ListRec:
     def copy(self):
         r = ListRec(list(self.items) if self.items is not None else None, self.length, self.elem, self.arr, self.sym)
         r.farr = dict(self.farr)
+        r.cnt = dict(self.cnt)
         return r
 
 
